@@ -387,22 +387,22 @@ type nameCand struct {
 }
 
 func (fr *Frame) lookupName(name string, e *Env) (TV, bool) {
-	if rm := fr.c.P.renamesFor(fr.fn); rm != nil && !e.renamed {
-		// the contract was written against the baseline source: a local or parameter that was
-		// only renamed since (the declaration is otherwise identical) is looked up under its new name
-		base, suffix := name, ""
-		if strings.HasSuffix(name, "0") && len(name) > 1 {
-			if _, ok := rm[name[:len(name)-1]]; ok {
-				base, suffix = name[:len(name)-1], "0"
-			}
+	// The contract was written against the baseline source: locals and parameters that were only
+	// renamed since (the declaration is otherwise identical) are looked up under their new names.
+	// Several variables may have shared the old name; all their new names are candidates and the
+	// usual scoping rule (deepest dominating definition) picks among them, as it did before.
+	is := func(s string) bool { return s == name }
+	isBase := func(s, base string) bool { return s == base }
+	if rm := fr.c.P.renamesFor(fr.fn); rm != nil && !strings.HasPrefix(name, "$") {
+		if alts, ok := rm[name]; ok {
+			is = func(s string) bool { return inList(alts, s) }
+			fr.c.assumed["contract name resolved through a pure rename of locals detected against /verif/baseline_src: "+name+" -> "+strings.Join(alts, "|")+" in "+displayName(fr.fn)] = true
 		}
-		if nn, ok := rm[base]; ok {
-			ne := *e
-			ne.renamed = true
-			if tv, found := fr.lookupName(nn+suffix, &ne); found {
-				fr.c.assumed["contract names resolved through a pure rename of locals detected against /verif/baseline_src: "+base+" -> "+nn+" in "+displayName(fr.fn)] = true
-				return tv, true
+		isBase = func(s, base string) bool {
+			if alts, ok := rm[base]; ok {
+				return inList(alts, s)
 			}
+			return s == base
 		}
 	}
 	fn := fr.fn
@@ -411,7 +411,7 @@ func (fr *Frame) lookupName(name string, e *Env) (TV, bool) {
 	if strings.HasSuffix(name, "0") && len(name) > 1 {
 		base = name[:len(name)-1]
 		for _, p := range fn.Params {
-			if p.Name() == base {
+			if isBase(p.Name(), base) {
 				entry = true
 			}
 		}
@@ -421,7 +421,7 @@ func (fr *Frame) lookupName(name string, e *Env) (TV, bool) {
 	}
 	if entry {
 		for _, p := range fn.Params {
-			if p.Name() == base {
+			if isBase(p.Name(), base) {
 				return TV{T: fr.val(p), Ty: p.Type()}, true
 			}
 		}
@@ -461,6 +461,9 @@ func (fr *Frame) lookupName(name string, e *Env) (TV, bool) {
 						isRange = true
 					}
 				}
+				if inductionPhi(h) != nil {
+					isRange = true
+				}
 				if isRange && (h == hb || reaches(hb, h)) {
 					hb = h
 					break
@@ -471,6 +474,10 @@ func (fr *Frame) lookupName(name string, e *Env) (TV, bool) {
 			for _, in := range hb.Instrs {
 				if ph, ok := in.(*ssa.Phi); ok && ph.Comment == "rangeindex" && name == "$i" {
 					return TV{T: "(+ " + e.valTerm(ph) + " 1)", Ty: types.Typ[types.Int]}, true
+				}
+				if ph, ok := in.(*ssa.Phi); ok && name == "$i" && ph == inductionPhi(hb) {
+					// `for i := 0; ...; i++`: i elements have been processed at the head
+					return TV{T: e.valTerm(ph), Ty: types.Typ[types.Int]}, true
 				}
 				if nx, ok := in.(*ssa.Next); ok && name == "$visited" {
 					rg := nx.Iter.(*ssa.Range)
@@ -495,7 +502,7 @@ func (fr *Frame) lookupName(name string, e *Env) (TV, bool) {
 			if !ok {
 				break
 			}
-			if ph.Comment == name {
+			if is(ph.Comment) {
 				return TV{T: e.valTerm(ph), Ty: ph.Type()}, true
 			}
 		}
@@ -504,7 +511,7 @@ func (fr *Frame) lookupName(name string, e *Env) (TV, bool) {
 	var anyAlloc, domAlloc *ssa.Alloc
 	for _, b := range fn.Blocks {
 		for _, in := range b.Instrs {
-			if a, ok := in.(*ssa.Alloc); ok && a.Comment == name {
+			if a, ok := in.(*ssa.Alloc); ok && is(a.Comment) {
 				if _, done := fr.vals[a]; !done {
 					continue
 				}
@@ -537,7 +544,7 @@ func (fr *Frame) lookupName(name string, e *Env) (TV, bool) {
 		return TV{T: ne.load(l), Ty: anyAlloc.Type().Underlying().(*types.Pointer).Elem()}, true
 	}
 	for _, fv := range fn.FreeVars {
-		if fv.Name() == name {
+		if is(fv.Name()) {
 			if a := fr.capturedAlloc(fv); a != nil && immutableCapture(a) {
 				return TV{T: fr.capConst(a), Ty: fv.Type().Underlying().(*types.Pointer).Elem()}, true
 			}
@@ -587,7 +594,7 @@ func (fr *Frame) lookupName(name string, e *Env) (TV, bool) {
 			switch x := in.(type) {
 			case *ssa.DebugRef:
 				id, ok := x.Expr.(*ast.Ident)
-				if !ok || id.Name != name {
+				if !ok || !is(id.Name) {
 					continue
 				}
 				if v, isVar := x.Object().(*types.Var); !isVar || v.IsField() {
@@ -602,7 +609,7 @@ func (fr *Frame) lookupName(name string, e *Env) (TV, bool) {
 				}
 				consider(nameCand{x.X, x.IsAddr, vb, i})
 			case *ssa.Phi:
-				if x.Comment == name {
+				if is(x.Comment) {
 					consider(nameCand{x, false, b, i})
 				}
 			}
@@ -618,7 +625,7 @@ func (fr *Frame) lookupName(name string, e *Env) (TV, bool) {
 		return TV{T: e.valTerm(best.v), Ty: best.v.Type()}, true
 	}
 	for _, p := range fn.Params {
-		if p.Name() == name {
+		if is(p.Name()) {
 			return TV{T: fr.val(p), Ty: p.Type()}, true
 		}
 	}
@@ -627,7 +634,7 @@ func (fr *Frame) lookupName(name string, e *Env) (TV, bool) {
 	for anc := fn.Parent(); fr.parent == nil && anc != nil; anc = anc.Parent() {
 		for _, b := range anc.Blocks {
 			for _, in := range b.Instrs {
-				if a, ok := in.(*ssa.Alloc); ok && a.Heap && a.Comment == name {
+				if a, ok := in.(*ssa.Alloc); ok && a.Heap && is(a.Comment) {
 					el := a.Type().Underlying().(*types.Pointer).Elem()
 					if immutableCapture(a) {
 						return TV{T: fr.capConst(a), Ty: el}, true
@@ -924,6 +931,19 @@ func fvReadOnly(fv *ssa.FreeVar) bool {
 
 // localType: the type of a source-level local variable of the function, by name.
 func (fr *Frame) localType(name string) types.Type {
+	if alts, ok := fr.c.P.renamesFor(fr.fn)[name]; ok {
+		for _, a := range alts {
+			if a != name {
+				if t := fr.localType0(a); t != nil {
+					return t
+				}
+			}
+		}
+	}
+	return fr.localType0(name)
+}
+
+func (fr *Frame) localType0(name string) types.Type {
 	for _, b := range fr.fn.Blocks {
 		for _, in := range b.Instrs {
 			switch x := in.(type) {
@@ -1019,4 +1039,53 @@ func (fr *Frame) env(at *ssa.BasicBlock) *Env {
 		e.file = fr.fc.File
 	}
 	return e
+}
+
+func inList(xs []string, s string) bool {
+	for _, x := range xs {
+		if x == s {
+			return true
+		}
+	}
+	return false
+}
+
+// inductionPhi: the counter of a loop written `for i := 0; cond; i++` (an int phi at the head
+// that starts at the constant 0 and whose only other incoming value is itself plus 1), if the
+// head has exactly one and is not a range loop. `$i` then denotes it.
+func inductionPhi(h *ssa.BasicBlock) *ssa.Phi {
+	var found *ssa.Phi
+	for _, in := range h.Instrs {
+		ph, ok := in.(*ssa.Phi)
+		if !ok {
+			break
+		}
+		if ph.Comment == "rangeindex" {
+			return nil
+		}
+		bt, ok := ph.Type().Underlying().(*types.Basic)
+		if !ok || bt.Kind() != types.Int || len(ph.Edges) != 2 {
+			continue
+		}
+		zero, step := false, false
+		for _, ev := range ph.Edges {
+			switch v := ev.(type) {
+			case *ssa.Const:
+				if v.Value != nil && v.Value.ExactString() == "0" {
+					zero = true
+				}
+			case *ssa.BinOp:
+				if k, isC := v.Y.(*ssa.Const); isC && v.Op == token.ADD && v.X == ph && k.Value != nil && k.Value.ExactString() == "1" {
+					step = true
+				}
+			}
+		}
+		if zero && step {
+			if found != nil {
+				return nil
+			}
+			found = ph
+		}
+	}
+	return found
 }
